@@ -3,6 +3,7 @@ package pass1
 import (
 	"fmt"
 	"log"
+	"math"
 
 	"github.com/HobbyOSs/gosk/internal/ast" // Add ast import
 )
@@ -261,6 +262,11 @@ func processRESB(env *Pass1, operands []ast.Exp) {
 	size := numExp.Value // Value is int64
 	if size < 0 {
 		log.Printf("Error: RESB size cannot be negative (%d).", size)
+		return
+	}
+	if size > math.MaxInt32 {
+		// ロケーションカウンタは 32 ビットなので、これ以上は予約できません
+		log.Printf("Error: RESB size %d is out of range (the location counter is 32 bits wide).", size)
 		return
 	}
 
